@@ -639,13 +639,24 @@ def alt_value(name, default):
 # =====================================================================================
 # oracle: pairs of equivalent descriptions -> byte comparison of the complete outputs
 # =====================================================================================
-def lib_doc(r, name="eqv", python=True):
-    """A small generated library: two classes X, Y (siblings), a namespace, blocks, free functions."""
+def lib_doc(r, name="eqv", python=True, simple=False):
+    """A small generated library: two classes X, Y (siblings), a namespace, blocks, free functions.
+    simple: free functions only, nested two and three scopes deep (namespace > block, namespace > namespace)."""
     cnt = [0]
 
     def fn(pool):
         cnt[0] += 1
         return ("fn", "f%d" % cnt[0], {}, {}, r.choice(pool))
+
+    if simple:
+        pool = POOL_FREE[:10]
+        items = [("ns", "outer", {}, {}, [("block", "B1", {}, {}, [fn(pool), fn(pool)]),
+                                          ("ns", "deep", {}, {}, [fn(pool), ("block", "B2", {}, {}, [fn(pool)])]),
+                                          fn(pool)]),
+                 ("block", "B3", {}, {}, [("block", "B4", {}, {}, [fn(pool)]), fn(pool)]),
+                 fn(pool)]
+        opts = {"debug_testsuite": True, "wrap_python": python, "wrap_lua": False}
+        return {"library": name, "cxx_header": name + ".hpp", "options": opts, "format": {}, "tree": items}
 
     meth = POOL_FREE[:9]
     X = ("cls", "Xc", {}, {}, [fn(meth) for _ in range(r.randrange(1, 3))] +
@@ -877,7 +888,7 @@ def oracle_pairs(ctx, scr, thorough, fs_options, fs_formats, defaults_o, default
     ctx.note("oracle_formats", [f for f, _ in fmt_cases])
 
     for li in range(nlib):
-        doc = lib_doc(r, "eqv%d" % li, python=(li % 2 == 0))
+        doc = lib_doc(r, "eqv%d" % li, python=(li % 2 == 0), simple=(li == 0))
         base_tree, eb, _ = run_doc(doc, scr, "base%d" % li)
         if eb:
             ctx.note("generated_library_rejected_%d" % li, eb)
